@@ -115,7 +115,7 @@ def check(pid, tier, seed, specs, plan, functions, bounds, assumptions, rule, sl
     wsdir = prepare(pid.lower(), specs)
     root = os.path.dirname(wsdir)
     logdir = os.path.join(root, "logs")
-    timeout = timeout or (900 if tier == "quick" else 2400)
+    timeout = timeout or (1500 if tier == "quick" else 3000)
     jobs = []
     for item in plan:
         jobs.append((item["h"], item))
